@@ -299,6 +299,7 @@ type mdPrinter struct {
 	depth    int    // container depth (tabs are only used at depth 0, where columns are absolute)
 	lastMark string // marker character / delimiter of the list printed last at the current nesting level
 	col      int    // absolute column at which the content of the current container starts; -1 = unknown
+	gapLoose bool   // the items being printed belong to a loose list of ≥2 items (the blank line between items makes it loose)
 }
 
 // tabOK reports whether a tab written at the start of the current container's content advances exactly four columns.
@@ -745,7 +746,10 @@ func (p *mdPrinter) block(b Blk, cx blkCtx) []pline {
 			if p.col >= 0 {
 				p.col += w
 			}
+			saveGap := p.gapLoose
+			p.gapLoose = !b.Tight && len(b.Items) >= 2
 			kids := p.blocks(it, b.Tight, true, map[bool]string{true: "", false: mark}[b.Ordered])
+			p.gapLoose = saveGap
 			p.col = saveCol
 			p.depth--
 			gap := spaces(nsp)
@@ -809,7 +813,12 @@ func (p *mdPrinter) blocks(bs []Blk, tight bool, inItem bool, itemBullet string)
 			if tight {
 				sep = false
 			} else if inItem {
-				// a blank line inside a list item may be what makes the list loose: never omitted
+				// a blank line inside a list item may be what makes the list loose: never omitted, except where the list has
+				// two or more items (the blank line between the items already makes it loose) and a bullet list or an ordered
+				// list starting at 1 directly follows a paragraph (such a list may interrupt a paragraph)
+				if p.gapLoose && prev.K == bPara && b.K == bList && (!b.Ordered || b.Start == 1) {
+					sep = p.ch.pick("item-blocks-blank-line", 2) == 0
+				}
 			} else if (prev.K == bHeading && !lastIsSetext(out) || prev.K == bThematic) && (b.K == bPara || b.K == bHeading || b.K == bQuote) ||
 				prev.K == bPara && (b.K == bQuote || b.K == bCode && false) {
 				sep = p.ch.pick("no-blank-line-between", 2) == 0
